@@ -86,6 +86,21 @@ def top_class(r: dict) -> str:
     return LT.class_seq([r])
 
 
+def physical(beam, bt) -> bool:
+    """False when the reference result left the regime the maps are meant for (non-finite coordinates, a beam blown up
+    to more than a metre / transverse momenta comparable to the reference momentum by an over-focusing lattice). There
+    the code's `k1 == 0 -> 1e-12` regularisation and NaN propagation through identity maps dominate, and the property
+    makes no claim."""
+    import torch
+    v = beam.particles[..., :6] if bt == "ParticleBeam" else beam._mu[..., :6]
+    if not bool(torch.isfinite(v).all()):
+        return False
+    if bt == "ParameterBeam" and not bool(torch.isfinite(beam._cov).all()):
+        return False
+    a = v.abs().reshape(-1, 6).max(dim=0).values
+    return bool(a[0] < 1.0 and a[2] < 1.0 and a[1] < 0.3 and a[3] < 0.3)
+
+
 def check_lattice(recs, P, En, bt, tname, except_for):
     """None if the transformation preserved tracking/length/names, else a description."""
     if bt == "ParameterBeam" and any(r.get("method") == "bmadx" or r["cls"] in ("SpaceChargeKick", "TransverseDeflectingCavity")
@@ -94,6 +109,8 @@ def check_lattice(recs, P, En, bt, tname, except_for):
     b = LT.particle_beam(P, En) if bt == "ParticleBeam" else LT.parameter_beam_from(P, En)
     seg = LT.build_segment(recs)
     ref = seg.track(b)
+    if not physical(ref, bt):
+        return None
     seg2 = LT.build_segment(recs)
     new = apply_transform(seg2, tname, b, except_for)
     out = new.track(b)
